@@ -33,7 +33,17 @@
 
    LINEARITY.  Every step is Z-linear in the data and the channel output is bilinear in (taps, data),
    so the laws for ALL Gaussian-integer data of a given length follow from the laws on the unit
-   patterns <<"unit", j, v>> (1 or i at position j); PatMode = "basis" enumerates these completely.
+   patterns <<"unit", j, v>> (1 or i at position j); PatMode = "basis" enumerates these completely,
+   LayMode = "basis" does the same for the taps (a unit tap 1 or i at every delay 0..cp).
+
+   EXTENSION beyond the statement: Block = TRUE adds block-static channels (the taps seen by OFDM symbol
+   s are the layout times i^s).  With memory <= cp every sample the window of symbol s sees was
+   filtered by the taps of symbol s, so the equaliser (per-symbol mean response) is still exact.
+
+   EMISSION.  `Emit` is a state predicate (always TRUE) listed as an INVARIANT: one line per distinct
+   state carrying what the step that led there produced, the scale bookkeeping and, for the final
+   steps, `exp` (what the property demands: the padded data) and `asis` (the fraction the as-is
+   equaliser computes in the corner cp = N = memory).
 
    Deviation flags (record Dev): with all flags FALSE the laws below are invariants.
      FreqResponseTruncates  get_freq_response(N) drops taps at delay >= N (np.fft.fft crops) instead of
